@@ -748,12 +748,54 @@ def write_replay(prop, q, p, r):
            'call_path': [(c.get('from'), c.get('fn'), c.get('ln')) for c in calls][-40:],
            'failure': fail[-1] if fail else None,
            'trace_tail': tr[-120:]}
-    rec['native_replay'] = native_replay(prop, q, rec)
+    if q.meta.get('what') == 'rel':
+        # relational obligations are refuted under uninterpreted arithmetic: no concrete input in the trace.  Search one on the
+        # REAL code against the compiled reference (tools/diffref.py), once per routine and run
+        rec['native_replay'] = differential_witness(q.meta.get('function'))
+    else:
+        rec['native_replay'] = native_replay(prop, q, rec)
     rec['replayed_failing_input'] = bool(rec['native_replay'] and rec['native_replay'].get('confirmed'))
     rec['path'] = path
     rec['rerun'] = './check replay %s' % os.path.relpath(path, VERIF)
     json.dump(rec, open(path, 'w'), indent=1)
     return rec
+
+
+_DW = {}
+
+
+def differential_witness(fn):
+    """first (routine, level, seed) on which /repo's compiled routine and the compiled Fortran reference generate different
+    events; for a shared kernel (beta, funbeta*, fermi, nucltransK*, bb helpers ...) the search runs over every routine"""
+    key = fn or '?'
+    if key in _DW:
+        return _DW[key]
+    try:
+        import diffref
+        exe, n = diffref.build()
+        names = {os.path.basename(h)[:-2].lower(): os.path.basename(h)[:-2] for h in os.listdir(os.path.join(bx2c.REPO, 'bxdecay0')) if h.endswith('.h')}
+        w = None
+        if fn and fn.lower() in names:
+            w = diffref.find(names[fn.lower()], seeds=1500)
+            scope = 'routine %s, 1500 seeds per level' % fn
+        else:
+            p = subprocess.run([exe, 'survey', '150'], capture_output=True, text=True, timeout=3600)
+            scope = 'every nuclide and cascade routine, 150 seeds per level (the failed obligation is in a shared kernel)'
+            for ln in p.stdout.split('\n'):
+                m = re.match(r'^DIFF (\S+) level (\d+) seed (\d+)', ln)
+                if m:
+                    s = subprocess.run([exe, 'show', m.group(1), m.group(3), m.group(2)], capture_output=True, text=True, timeout=600)
+                    w = {'routine': m.group(1), 'level': int(m.group(2)), 'seed': int(m.group(3)), 'events': s.stdout.split('\n')[:60],
+                         'replay': 'python3 tools/diffref.py show %s %s %s' % (m.group(1), m.group(3), m.group(2))}
+                    break
+        if w:
+            r = {'confirmed': True, 'how': 'differential run of the real routine against the compiled Fortran reference, same scripted deviates', 'searched': scope, 'witness': w}
+        else:
+            r = {'confirmed': False, 'why': 'no differing event found by the differential search', 'searched': scope}
+    except Exception as e:
+        r = {'confirmed': False, 'why': 'differential search error: ' + repr(e)[:300]}
+    _DW[key] = r
+    return r
 
 
 def native_replay(prop, q, rec):
@@ -796,6 +838,28 @@ def f77c_crosscheck(tier):
     except (ValueError, IndexError):
         r = {'status': 'crashed', 'stderr': p.stderr[-2000:]}
     r['wall_s'] = round(time.time() - t0, 1)
+    if r.get('status') == 'ran':
+        os.makedirs(os.path.dirname(cp), exist_ok=True)
+        json.dump(r, open(cp, 'w'), indent=1)
+    return r
+
+
+def genbb_crosscheck():
+    """tools/refgenbb.py, cached on the hash of what it reads"""
+    h = hashlib.sha256()
+    for f in (REF_FOR, os.path.join(VERIF, 'tools', 'f77c.py'), os.path.join(VERIF, 'tools', 'bx2c.py'), os.path.join(VERIF, 'tools', 'refnative.py'),
+              os.path.join(VERIF, 'tools', 'refgenbb.py'), os.path.join(VERIF, 'shim', 'bx_shim.h')):
+        h.update(open(f, 'rb').read())
+    cp = os.path.join(VERIF, 'build', 'results', 'refgenbb.%s.json' % h.hexdigest()[:20])
+    if os.path.exists(cp) and not os.environ.get('VERIF_NOCACHE'):
+        r = json.load(open(cp))
+        r['cached'] = True
+        return r
+    p = subprocess.run([sys.executable, os.path.join(VERIF, 'tools', 'refgenbb.py')], capture_output=True, text=True, timeout=3600)
+    try:
+        r = json.loads(p.stdout[p.stdout.index('{'):])
+    except (ValueError, IndexError):
+        r = {'status': 'crashed', 'stderr': p.stderr[-2000:]}
     if r.get('status') == 'ran':
         os.makedirs(os.path.dirname(cp), exist_ok=True)
         json.dump(r, open(cp, 'w'), indent=1)
@@ -874,6 +938,13 @@ def prop_genbb(prop, tier, seed):
     results = run_all(queries)
     extra = {}
     rc_static = 0
+    if prop == 'C06':
+        gx = genbb_crosscheck()
+        if gx.get('status') != 'ran' or gx.get('differ') or gx.get('exit'):
+            log('GENBBsub rendering cross-check failed or could not run: %s %s' % (gx.get('status'), (gx.get('first_differences') or gx.get('stderr') or '')[:3]))
+            return 2
+        extra['f77c_genbbsub_crosscheck'] = {'all_agree': True, 'nuclides': gx['nuclides_rendered'], 'summary': gx['summary'], 'cached': bool(gx.get('cached')),
+                                             'how': 'compiled reference GENBBsub(i2bbs=1, name, ilevel, modebb, istart=-1) (bb replaced by a recorder) against the natively compiled f77c rendering ref_genbbinit, every ilevel in -2..21 and modebb in -1..22: ier, Qbb, Zdbb, Adbb, EK, levelE'}
     if prop == 'C05':
         cat = catalogue_obligations(db)
         extra['catalogue_facts'] = [{'fact': d, 'holds': ok, 'difference': diff} for d, ok, diff in cat]
@@ -996,7 +1067,7 @@ ASSUMPTIONS = {
     'C05': ['scheme routines are replaced by the abstract effect "log my id, append 1..3 particles, return a decay time"; that each routine IS its scheme is C01/C04',
             'double-beta names: dispatch to the *low cascade is covered by C06/C03 obligations, not here',
             'bb_utils.cc list-file parser and the CLI/Geant4 consumers (std::map/ifstream) are outside the C subset: not covered'],
-    'C06': ['GENBBsub character tests are evaluated for each concrete published name by f77c; the numeric part is the rendered reference',
+    'C06': ['GENBBsub character tests are evaluated for each concrete published name by f77c; the numeric part is the rendered reference, cross-checked on every run against the compiled reference on all 51 x 24 x 24 (name, ilevel, modebb) configurations (coverage.f77c_genbbsub_crosscheck)',
             'gA routing, energy-window validation and the label<->mode maps live in decay0_generator.cc/bb_utils.cc (STL/iostream): not covered',
             'decay0_bb(init) is a no-op stub here (its effect on the spectrum tables is not part of the accept/reject decision)'],
     'C01': ['f77c (renderer of the reference) is cross-checked on every run against gcc\'s Fortran front end: 117 routines x levels + 25 integrands agree on scripted deviates (coverage.f77c_crosscheck); NOT covered by that cross-check: bb, dshelp1, GENBBsub, gfang/pairext/compton/moller; reference REAL arithmetic is rendered (and compiled, -fdefault-real-8) as double: single-precision rounding of the original build is outside "floating-point noise" comparisons',
